@@ -328,6 +328,34 @@ func genDbcSweep(g *G, k int) *gDbc {
 		}
 		d.msgs = append(d.msgs, m)
 	}
+	// short signals that lie inside one byte away from its edges (a byte-local read must still honour the byte order)
+	{
+		m := &gMsg{name: "Nib", size: 2, sender: "NodeS0", id: 0x7f1}
+		starts := []int{3, 1, 11}
+		if be {
+			starts = []int{5, 2, 14}
+		}
+		for i, L := range []int{3, 2, 4} {
+			sg := mk(fmt.Sprintf("Nib%d", i), starts[i], L, 0)
+			sg.factor, sg.offset, sg.min, sg.max = "1", "0", "0", "0"
+			m.sigs = append(m.sigs, sg)
+		}
+		d.msgs = append(d.msgs, m)
+	}
+	// 8-, 16- and 32-bit signals whose start bit is bit 0 of a byte: whole bytes in little-endian order, straddling
+	// two bytes in big-endian order (a "whole byte" shortcut must look at the byte order)
+	{
+		m := &gMsg{name: "Straddle", size: 8, sender: "NodeS0", id: 0x7f2}
+		for i, sl := range [][2]int{{0, 8}, {16, 16}, {40, 8}} {
+			if be && i == 1 {
+				sl = [2]int{24, 16}
+			}
+			sg := mk(fmt.Sprintf("Str%d", i), sl[0], sl[1], 0)
+			sg.factor, sg.offset, sg.min, sg.max = "1", "0", "0", "0"
+			m.sigs = append(m.sigs, sg)
+		}
+		d.msgs = append(d.msgs, m)
+	}
 	d.render(g, false)
 	return d
 }
